@@ -27,6 +27,10 @@ func verifSymKVOnDisk(kek *verifKEK, nsec, nver int) *kv {
 	k := verifSymKV(nsec, nver, "")
 	k.path = "/state/verif.db"
 	verifFS.livePath = k.path
+	if nondetBool("dbfile.preexists") {
+		// a file is already there (an earlier run, a restore, an operator's copy) with whatever mode it was given
+		verifFS.files[k.path] = &verifInode{complete: true, durableOK: true, mode: os.FileMode(nondetU32("dbfile.mode") & 0777)}
+	}
 	dek := verifHandleWithID(verifDEKID)
 	k.dek = dek
 	k.dekCipher = verifAEAD{key: verifDEKID}
